@@ -19,6 +19,8 @@ FAIL_KINDS = [
     ('possible arithmetic underflow/overflow', 'overflow'),
     ('possible division by zero', 'div0'),
     ('assertion failed', 'assert'),
+    ('expression simplifies to false', 'assert-by-compute'),
+    ('assert_by_compute', 'assert-by-compute'),
     ('recommendation not met', 'recommends'),
     ('loop invariant not satisfied', 'invariant'),
     ('unreachable', 'unreachable'),
